@@ -5,6 +5,7 @@ import (
 	"go/token"
 	"go/types"
 	"runtime"
+	"strings"
 )
 
 type intrinsicFn func(p *Path, caller *frame, pos token.Pos, args []Value) Value
@@ -205,6 +206,52 @@ func registerIntrinsics(e *Engine) {
 			p.assume(p.ts.ILe(p.ts.Int64(0), n))
 		}
 		return &AbsBytes{Len: n, Name: "opaque"}
+	}
+	// verifSetField(ptr, "a.b.c", v): stores v into the (possibly unexported, possibly
+	// foreign-package) field reached from *ptr by the dotted path. Lets a harness
+	// build objects of library types whose constructors are out of the engine's
+	// reach (arrow arrays: unsafe-backed buffers) while the library's own accessors
+	// run as written.
+	in["verifSetField"] = func(p *Path, caller *frame, pos token.Pos, args []Value) Value {
+		iv, ok := args[0].(IfaceV)
+		if !ok || iv.T == nil {
+			p.abortf(abortUnsupported, "verifSetField: nil object")
+		}
+		cur, ok := iv.V.(*Value)
+		if !ok || cur == nil {
+			p.abortf(abortUnsupported, "verifSetField: object is not a pointer (%T)", iv.V)
+		}
+		pt, ok := iv.T.Underlying().(*types.Pointer)
+		if !ok {
+			p.abortf(abortUnsupported, "verifSetField: %s is not a pointer type", iv.T)
+		}
+		t := pt.Elem()
+		for _, name := range strings.Split(concStr(p, args[1], "verifSetField path"), ".") {
+			st, ok := t.Underlying().(*types.Struct)
+			if !ok {
+				p.abortf(abortUnsupported, "verifSetField: %s is not a struct", t)
+			}
+			sv, ok := (*cur).(StructV)
+			if !ok {
+				p.abortf(abortUnsupported, "verifSetField: storage holds %T", *cur)
+			}
+			idx := -1
+			for i := 0; i < st.NumFields(); i++ {
+				if st.Field(i).Name() == name {
+					idx = i
+				}
+			}
+			if idx < 0 {
+				p.abortf(abortUnsupported, "verifSetField: %s has no field %s", t, name)
+			}
+			cur, t = &sv[idx], st.Field(idx).Type()
+		}
+		val := args[2]
+		if vi, isI := val.(IfaceV); isI && !types.IsInterface(t) {
+			val = vi.V
+		}
+		*cur = copyVal(val)
+		return nil
 	}
 	// verifRunUntilBlocked(f): runs f as if on its own goroutine until it either
 	// returns (false) or parks forever on a channel operation that cannot
